@@ -221,7 +221,7 @@ Proof. vm_compute. reflexivity. Qed.
 (* T16d -- monotonicity and finiteness under rounding (IEEE)           *)
 (* ================================================================== *)
 From Flocq Require Import IEEE754.BinarySingleNaN.
-From RM Require Import Proofs.LengthMono Proofs.AdjustExact.
+From RM Require Import Proofs.LengthMono Proofs.LengthBound Proofs.AdjustExact.
 
 (* the predicates used below, spelled out *)
 Theorem C16_T16d_predicates :
@@ -287,6 +287,32 @@ Theorem C16_no_overflow_condition :
   is_finite (natural_len path D.zero) = true.
 Proof. exact natural_len_finite. Qed.
 Print Assumptions C16_no_overflow_condition.
+
+(* ... which a coordinate bound guarantees: every coordinate finite with
+   magnitude at most 2^60 (difference <= 2^61, squares <= 2^122, sum <= 2^123,
+   root <= 2^62: every f32 segment length is finite) *)
+Theorem C16_coordinate_bound_gives_finite_segments :
+  (forall p k, coord_le p k <->
+     (is_finite (px p) = true /\ (Rabs (B2R (px p)) <= Raux.bpow Zaux.radix2 k)%R) /\
+     (is_finite (py p) = true /\ (Rabs (B2R (py p)) <= Raux.bpow Zaux.radix2 k)%R)) /\
+  (forall a b, coord_le a 60 -> coord_le b 60 -> is_finite (Curve.plen (psub b a)) = true) /\
+  (forall path, Forall (fun p => coord_le p 60) path -> segs_finite path).
+Proof.
+  split; [intros; reflexivity|]. split; [exact plen_finite_of_bound|exact segs_finite_of_bound].
+Qed.
+Print Assumptions C16_coordinate_bound_gives_finite_segments.
+
+(* T16d with the concrete side condition: |coordinate| <= 2^60, at most 2^53
+   vertices, finite requested length: every outcome of calculate_length (zero
+   seed) starts at 0.0, is non-decreasing and every entry is finite *)
+Theorem C16_lengths_nondecreasing_and_finite :
+  forall path e path' lens,
+  Forall (fun p => coord_le p 60) path -> (Z.of_nat (length path) <= 2 ^ 53)%Z ->
+  (forall L, e = Some L -> is_finite L = true) ->
+  calculate_length path e D.zero = Done (path', lens) ->
+  lengths_ok lens /\ Forall (fun v => is_finite v = true) lens.
+Proof. exact lengths_finite_of_bound. Qed.
+Print Assumptions C16_lengths_nondecreasing_and_finite.
 
 (* the seed IS zero outside the osu!-mode Catmull simplification *)
 Theorem C16_seed_is_zero_outside_osu_catmull :
